@@ -207,7 +207,7 @@ def trait_cases(rng, tier, fmts=ib.FORMATS):
             chs = some_chunkings(img, rng, nch if fmt != 'vhdx' else 2)
             for ch in chs:
                 yield mk('safety', img, ch, 'trait')
-            if fmt in STATIC:
+            if fmt in STATIC or fmt == 'vmdk':
                 yield mk('spec', img, chs[-1], 'spec')
             # irrelevant fields / truncations of a sample
             if rng.random() < (0.08 if tier == 'quick' else 0.3) and fmt != 'vhdx':
@@ -302,7 +302,12 @@ def fields(io):
 def encode(c):
     if c['op'] == 'safety': return ['safety', c['fmt'], data_of(c), list(c['sizes'])]
     if c['op'] == 'spec':
-        return ['spec', c['fmt'], data_of(c)] if c['fmt'] in STATIC else None
+        if c['fmt'] in STATIC: return ['spec', c['fmt'], data_of(c)]
+        if c['fmt'] == 'vmdk':
+            d = data_of(c)      # the zone the sparse-VMDK theorem characterises (complement of F1 and of C01's F3)
+            if len(d) >= 64 and d[:4] == b'KDMV' and le(d, 4, 4) in (1, 2, 3) and not (le(d, 56, 8) == GD_AT_END and len(d) < 1599):
+                return ['spec', 'vmdk', d]
+        return None
     if c['op'] == 'cli' and 'lib' in c:
         det, saf, vs = c['lib']
         det_ok = det not in ('nopath', 'None') and not det.startswith('EXN')
@@ -499,7 +504,7 @@ TRUSTED = ['tools/imgbuild.py: ground truth (expect_accept) derived from the pro
            'tools/gen/gen_C02_cli.py: statement-by-statement translation of cli.main into the statement language of Model/C02_Cli.v (fail-closed)']
 ASSUMPTIONS = ['"accepted" = no exception escaped eat_chunk and safety_check() returned normally (an exception voids the inspection); acceptance of a frozen inspector is reported separately (finding F7)',
                'detection (InspectWrapper) is an input of the command-line model: exit status is a function of (path ok, detection outcome, safety_check outcome, virtual_size outcome, -v)',
-               'VMDK and VHDX byte-level characterisations are state-level (refinement of the two dynamic formats belongs to C01); byte-level for all chunkings for the eight static formats']
-LEVEL_TEXT = ('safety_check() gate proved for every format and state; Pass characterised on the bytes for all chunkings (qcow2, luks, gpt/mbr, qed, vhd, vdi, iso, raw); '
-              'state-level characterisation for vmdk/vhdx; cli.main translated statement by statement and exit status 0 characterised; F1 refuted by witness.')
-LEVEL_NOTE = 'VMDK/VHDX byte-level statements need the refinement theorems of the dynamic formats (C01); see notes/C02.md'
+               'VHDX: state level only (null check: Pass <-> complete and match in every reachable state); byte level for all chunkings for the eight static formats and for sparse VMDK outside the zones F1 (no valid sparse header) and F3 (footer announced, stream shorter than 63+1536 bytes)']
+LEVEL_TEXT = ('safety_check() gate proved for every format and state; Pass characterised on the bytes for all chunkings (qcow2, luks, gpt/mbr, qed, vhd, vdi, iso, raw, '
+              'and sparse VMDK: both directions, frozen inspectors included); vhdx at state level; cli.main translated statement by statement and exit status 0 characterised; F1 refuted by witness.')
+LEVEL_NOTE = 'VHDX byte-level statements need the refinement of the VHDX run (C01); VMDK text-descriptor mode is finding F1; see notes/C02.md'
